@@ -8,7 +8,9 @@ import (
 	"os"
 	"time"
 
+	"verif/harness/gen"
 	"verif/harness/ir"
+	"verif/harness/plug"
 	"verif/harness/props"
 	"verif/harness/report"
 	"verif/harness/scratch"
@@ -51,6 +53,8 @@ func dispatch(cmd string, args []string) bool {
 		cmdTry(args)
 	case "check":
 		cmdCheck(args)
+	case "warm":
+		cmdWarm()
 	default:
 		return false
 	}
@@ -110,4 +114,33 @@ func cmdTry(args []string) {
 	if err != nil {
 		fmt.Fprintln(os.Stderr, "ERR:", err)
 	}
+}
+
+// warm builds the plugin binaries, protoc-gen-go and one scratch package so that the Go build
+// cache holds every dependency the checks compile against.
+func cmdWarm() {
+	if _, err := plug.BinDir(); err != nil {
+		fmt.Fprintln(os.Stderr, err)
+		os.Exit(1)
+	}
+	if _, err := plug.ToolDir(); err != nil {
+		fmt.Fprintln(os.Stderr, err)
+		os.Exit(1)
+	}
+	bt, err := scratch.NewBatch()
+	if err != nil {
+		fmt.Fprintln(os.Stderr, err)
+		os.Exit(1)
+	}
+	defer bt.Close()
+	req := gen.GenRuntimeFile(gen.New(1), 0, gen.RuntimeOpts{Headers: true})
+	if _, err := bt.Add("s0000", req, scratch.AddOpts{GoHTTP: true, GoClient: true}); err != nil {
+		fmt.Fprintln(os.Stderr, err)
+		os.Exit(1)
+	}
+	if err := bt.Build(false); err != nil {
+		fmt.Fprintln(os.Stderr, err)
+		os.Exit(1)
+	}
+	fmt.Println("warm: ok")
 }
